@@ -14,9 +14,11 @@ import time
 
 VERIF = os.path.dirname(os.path.dirname(os.path.abspath(__file__)))
 REPO = os.environ.get("VERIF_REPO", "/repo")
-BUILD = os.path.join(VERIF, ".build")
+# VERIF_REPO / VERIF_BUILD / VERIF_EVID are for evaluating seeded changes on a scratch copy of the repository
+# (tools/evalcopy.py) without touching /repo or the committed evidence; the registered commands never set them.
+BUILD = os.environ.get("VERIF_BUILD") or os.path.join(VERIF, ".build")
 SPEC = os.path.join(VERIF, "spec")
-EVID = os.path.join(VERIF, "evidence")
+EVID = os.environ.get("VERIF_EVID") or os.path.join(VERIF, "evidence")
 NCPU = os.cpu_count() or 4
 
 GOENV = dict(os.environ, GOFLAGS="-mod=mod", GOPROXY="off", GOSUMDB="off",
@@ -55,6 +57,14 @@ def build_harness(race=False):
     os.makedirs(BUILD, exist_ok=True)
     out = os.path.join(BUILD, "acvh-race" if race else "acvh")
     hdir = os.path.join(VERIF, "harness")
+    if REPO != "/repo":         # scratch evaluation: private copy of the harness source bound to the scratch repository
+        src = os.path.join(BUILD, "harness-src")
+        shutil.rmtree(src, ignore_errors=True)
+        shutil.copytree(hdir, src)
+        gm = os.path.join(src, "go.mod")
+        text = open(gm).read().replace("=> /repo", "=> " + REPO)
+        open(gm, "w").write(text)
+        hdir = src
     shutil.copyfile(os.path.join(REPO, "go.sum"), os.path.join(hdir, "go.sum"))
     cmd = ["go", "build", "-tags", "verif"] + (["-race"] if race else []) + ["-o", out, "./cmd/acvh"]
     t = time.time()
